@@ -241,8 +241,49 @@ def _t2_params() -> dict:
             "overflowType": _const_int(ovf.comparators[0], env), "period": _const_int(per.right, env)}
 
 
+def _t3_params() -> dict:
+    tree = ast.parse((core.REPO / T2_SRC).read_text())
+    fn = _func(tree, "process_data", "_T3EventDecoder")
+    arg = fn.args.args[1].arg
+    env: dict = {}
+    for n in fn.body:
+        if isinstance(n, ast.Assign) and len(n.targets) == 1 and isinstance(n.targets[0], ast.Name):
+            v = _const_int(n.value, env)
+            if v is not None:
+                env[n.targets[0].id] = v
+
+    def on_input(n, op):
+        return (isinstance(n, ast.BinOp) and isinstance(n.op, op) and isinstance(n.left, ast.Name) and n.left.id == arg
+                and _const_int(n.right, env) is not None)
+    shifts = sorted((_const_int(n.right, env) for n in ast.walk(fn) if on_input(n, ast.RShift)), reverse=True)
+    if len(shifts) != 2:
+        raise TranslatorError(f"T3: expected two `fifo_data >> K`, found {shifts}")
+    # `fifo_data >> 10 & 0x07fff` parses as `(fifo_data >> 10) & 0x07fff`; `fifo_data & 0x03ff`
+    dmask = _one([_const_int(n.right, env) for n in ast.walk(fn) if isinstance(n, ast.BinOp) and isinstance(n.op, ast.BitAnd)
+                  and on_input(n.left, ast.RShift) and _const_int(n.right, env) is not None], "(fifo_data >> K) & MASK")
+    nmask = _one([_const_int(n.right, env) for n in ast.walk(fn) if on_input(n, ast.BitAnd)], "fifo_data & MASK")
+    ovf = _one([n for n in ast.walk(fn) if isinstance(n, ast.Compare) and len(n.ops) == 1 and isinstance(n.ops[0], ast.Eq)
+                and _const_int(n.comparators[0], env) is not None], "record_types == OVERFLOW_TYPE")
+    wraps = [_const_int(n.left, env) for n in ast.walk(fn) if isinstance(n, ast.BinOp) and isinstance(n.op, ast.Mult)
+             and isinstance(n.left, ast.BinOp) and isinstance(n.left.op, ast.LShift) and _const_int(n.left, env) is not None]
+    wrap = _one(wraps, "(1 << K) * sync period")
+    syncs = [n.value.value for n in ast.walk(fn) if isinstance(n, ast.Assign) and isinstance(n.value, ast.Constant)
+             and isinstance(n.value.value, int) and isinstance(n.targets[0], ast.Subscript)]
+    sync = _one(syncs, "events[...]['type'] = SYNC literal")
+    return {"typeShift": shifts[0], "dShift": shifts[1], "dMask": dmask, "nMask": nmask,
+            "overflowType": _const_int(ovf.comparators[0], env), "wrap": wrap, "syncType": sync}
+
+
 _CT_KINDS = {"B": (1, False), "b": (1, True), "H": (2, False), "h": (2, True), "I": (4, False), "i": (4, True),
              "L": (None, False), "l": (None, True), "Q": (8, False), "q": (8, True)}
+
+
+def all_fields(cls) -> list:
+    """`_fields_` of the class and of its bases, in memory order."""
+    out = []
+    for base in reversed(cls.__mro__):
+        out += list(base.__dict__.get("_fields_", []))
+    return out
 
 
 def _layout_of(cls, name: Optional[str] = None) -> dict:
@@ -250,7 +291,7 @@ def _layout_of(cls, name: Optional[str] = None) -> dict:
     if not issubclass(cls, ctypes.LittleEndianStructure):
         raise TranslatorError(f"{cls.__name__} is not a LittleEndianStructure")
     fields = []
-    for fname, ftype, *bits in cls._fields_:
+    for fname, ftype, *bits in all_fields(cls):
         if bits:
             raise TranslatorError(f"{cls.__name__}.{fname}: bit fields are not modelled")
         d = getattr(cls, fname)
@@ -294,6 +335,42 @@ def _apt_params() -> dict:
             "packets": packets}
 
 
+K10_SRC = "qmi/instruments/thorlabs/k10cr1.py"
+
+
+def _k10_params() -> dict:
+    import importlib
+    k = importlib.import_module("qmi.instruments.thorlabs.k10cr1")
+    table = k._apt_message_type_table
+    layouts = []
+    for mid, cls in table.items():
+        l = _layout_of(cls)
+        if l["msgId"] != int(mid):
+            raise TranslatorError(f"k10cr1 table key {mid:#x} != {cls.__name__}.MESSAGE_ID")
+        layouts.append(l)
+    tree = ast.parse((core.REPO / K10_SRC).read_text())
+    rd = _func(tree, "_read_message", "Thorlabs_K10CR1")
+    cr = _func(tree, "create", "_AptMessage")
+    nb = [_const_int(kw.value) for n in ast.walk(rd) if isinstance(n, ast.Call) for kw in n.keywords
+          if kw.arg == "nbytes" and _const_int(kw.value) is not None]
+    hdr_len = _one(nb, "read(nbytes=K) in _read_message")
+    flags = [_const_int(n.right) for n in ast.walk(rd) if isinstance(n, ast.BinOp) and isinstance(n.op, ast.BitAnd)
+             and _const_int(n.right) is not None]
+    flag = _one(flags, "hdr.dest & K")
+    cflags = [_const_int(n.right) for n in ast.walk(cr) if isinstance(n, ast.BinOp) and isinstance(n.op, ast.BitOr)
+              and _const_int(n.right) is not None]
+    if _one(cflags, "_APT_DEVICE_ADDRESS | K in create") != flag:
+        raise TranslatorError("create() and _read_message() use different long-message flags")
+    csz = sorted(_const_int(n.comparators[0]) for n in ast.walk(cr) if isinstance(n, ast.Compare)
+                 and _const_int(n.comparators[0]) is not None) + \
+        sorted(_const_int(n.right) for n in ast.walk(cr) if isinstance(n, ast.BinOp) and isinstance(n.op, ast.Sub)
+               and _const_int(n.right) is not None)
+    if csz != [hdr_len, hdr_len]:
+        raise TranslatorError(f"create(): header size constants {csz} differ from read(nbytes={hdr_len})")
+    return {"table": layouts, "hdr": _layout_of(k._AptMessageHeader), "hdrLen": hdr_len, "longFlag": flag,
+            "devAddr": int(k._APT_DEVICE_ADDRESS), "hostAddr": int(k._APT_HOST_ADDRESS)}
+
+
 def _lean_bytes(vs) -> str:
     return "[" + ", ".join(f"0x{v:02x}" for v in vs) + "]"
 
@@ -307,8 +384,9 @@ def _lean_layout(l: dict) -> str:
             % (l["name"], l["msgId"], str(l["headerOnly"]).lower(), l["size"], fs))
 
 
-def render_gen(ib: dict, t2: dict, apt: dict) -> str:
+def render_gen(ib: dict, t2: dict, apt: dict, k10: dict, t3: dict) -> str:
     pk = ",\n  ".join(_lean_layout(l) for l in apt["packets"])
+    kt = ",\n  ".join(_lean_layout(l) for l in k10["table"])
     return f"""import QmiModel.Model.Interbus
 import QmiModel.Model.Apt
 import QmiModel.Model.T2
@@ -335,6 +413,10 @@ def interbus : QmiModel.Interbus.Params :=
 def t2 : QmiModel.T2.Params :=
   {{ typeShift := {t2['typeShift']}, tagMask := {t2['tagMask']}, overflowType := {t2['overflowType']}, period := {t2['period']} }}
 
+def t3 : QmiModel.T2.Params3 :=
+  {{ typeShift := {t3['typeShift']}, dShift := {t3['dShift']}, dMask := {t3['dMask']}, nMask := {t3['nMask']},
+    overflowType := {t3['overflowType']}, wrap := {t3['wrap']}, syncType := {t3['syncType']} }}
+
 def aptHeaderSize : Nat := {apt['headerSize']}
 def aptDataFlag : Nat := {apt['dataFlag']}
 
@@ -347,12 +429,25 @@ def aptHdrData : QmiModel.Apt.Layout :=
 def aptPackets : List QmiModel.Apt.Layout := [
   {pk}]
 
+/-- `qmi/instruments/thorlabs/k10cr1.py`: `_AptMessageHeader` -/
+def k10Hdr : QmiModel.Apt.Layout :=
+  {_lean_layout(k10['hdr'])}
+
+/-- `_apt_message_type_table` (live, in insertion order; classes with the inherited header fields) -/
+def k10Table : List QmiModel.Apt.Layout := [
+  {kt}]
+
+/-- the literals of `_read_message` / `_AptMessage.create` and the two module-level addresses -/
+def k10 : QmiModel.Apt.K10 :=
+  {{ hdrLen := {k10['hdrLen']}, longFlag := {k10['longFlag']}, devAddr := {k10['devAddr']}, hostAddr := {k10['hostAddr']},
+    hdr := k10Hdr, table := k10Table }}
+
 end QmiModel.Gen.Layouts
 """
 
 
 def translate_all() -> dict:
-    return {"ib": _interbus_params(), "t2": _t2_params(), "apt": _apt_params()}
+    return {"ib": _interbus_params(), "t2": _t2_params(), "apt": _apt_params(), "k10": _k10_params(), "t3": _t3_params()}
 
 
 
@@ -424,7 +519,12 @@ class BufferTransport:
     def __init__(self, data: bytes = b"", budget: int = 50):
         self.buf = bytearray(data)
         self.written: list = []
+        self.reads: list = []          # (nbytes, timeout) of every read call
         self.budget = budget
+
+    def discard_read(self):
+        self._tick()
+        self.buf.clear()
 
     def _tick(self):
         self.budget -= 1
@@ -438,6 +538,7 @@ class BufferTransport:
     def read(self, nbytes, timeout=None):
         from qmi.core.exceptions import QMI_TimeoutException
         self._tick()
+        self.reads.append((nbytes, timeout))
         if len(self.buf) < nbytes:
             raise QMI_TimeoutException("fake: not enough data")
         out = bytes(self.buf[:nbytes])
@@ -515,6 +616,27 @@ APT_DOC = {
 }
 
 
+# messages of the K10CR1 (same document): id -> format of the data part, None = header-only message with two parameter bytes.
+# (HW_GET_INFO's serial number is a "long" in the document; serial numbers are positive, 'L' is used for the field check.)
+K10_DOC = {
+    0x0223: None, 0x0210: None, 0x0211: None, 0x0212: None, 0x0005: None, 0x0411: None, 0x0414: None, 0x043B: None,
+    0x0441: None, 0x0443: None, 0x0444: None, 0x0465: None, 0x0429: None,
+    0x0006: "<L8s" + "H" + "4s" + "60s" + "HHH", 0x0412: "<Hl", 0x0413: "<Hlll", 0x0415: "<Hlll", 0x043A: "<Hl", 0x043C: "<Hl",
+    0x0440: "<HHHll", 0x0442: "<HHHll", 0x0448: "<Hl", 0x0453: "<Hl", 0x0464: "<HlHHL", 0x0466: "<HlHHL", 0x042A: "<HL",
+}
+
+
+def ref_k10_message(rng, mid: int, dest: int = 0x01, source: int = 0x50) -> tuple:
+    """(wire bytes, data values) of one device→host message with id `mid`, per the document."""
+    fmt = K10_DOC[mid]
+    if fmt is None:
+        p1, p2 = rng.choice([0, 1, 2, 255, rng.randrange(256)]), rng.choice([0, 1, 2, 255, rng.randrange(256)])
+        return struct.pack("<HBBBB", mid, p1, p2, dest, source), [p1, p2]
+    dv = gen_doc_values(rng, fmt)
+    data = doc_pack(fmt, dv)
+    return ref_apt_header_data(mid, len(data), dest, source) + data, dv
+
+
 def ref_apt_parse(wire: bytes) -> Optional[dict]:
     """Device-side parser of one host→device message; None = not exactly one well-formed message."""
     if len(wire) < 6:
@@ -557,6 +679,26 @@ def ref_t2_decode(records, ofl: int = 0):
                 ev.append(("marker", channel, ofl + tag))
         else:
             ev.append(("photon", channel, ofl + tag))
+    return ev, ofl
+
+
+# --- PicoQuant TTTR T3 record: bit31 special, bits30..25 channel, bits24..10 dtime, bits9..0 nsync.  special & channel 0x3F:
+#     sync-counter overflow, nsync = number of wrap-arounds of the 10-bit counter (T3WRAPAROUND = 1024); channels 1..15 markers.
+#     true sync number = oflcorrection + nsync; time = truensync * sync period + dtime * resolution.
+T3_WRAP = 1024
+
+
+def ref_t3_decode(records, period_ps: int, res_ps: int, ofl: int = 0):
+    """Returns ([(kind, channel, time_ps, truensync)], ofl)."""
+    ev = []
+    for r in records:
+        special, channel = (r >> 31) & 1, (r >> 25) & 0x3F
+        dtime, nsync = (r >> 10) & 0x7FFF, r & 0x3FF
+        if special and channel == 0x3F:
+            ofl += T3_WRAP * nsync
+            continue
+        true = ofl + nsync
+        ev.append(("marker" if special else "photon", channel, true * period_ps + dtime * res_ps, true))
     return ev, ofl
 
 
@@ -647,7 +789,7 @@ def apt_flat_fields(cls) -> list:
     """[(name, count, is_char, offset, elem_size)] from the live class."""
     import ctypes
     out = []
-    for fname, ftype, *_ in cls._fields_:
+    for fname, ftype, *_ in all_fields(cls):
         d = getattr(cls, fname)
         count, elem = 1, ftype
         if hasattr(ftype, "_length_"):
@@ -661,12 +803,13 @@ def apt_obj_values(obj) -> list:
     vals = []
     raw = bytes(obj)
     for name, count, is_char, off, esz in apt_flat_fields(type(obj)):
+        v = getattr(obj, name)
         if is_char:
             vals += list(raw[off:off + count])
-        elif count > 1:
-            vals += [int(x) for x in getattr(obj, name)]
+        elif hasattr(v, "__len__"):
+            vals += [int(x) for x in v]
         else:
-            vals.append(int(getattr(obj, name)))
+            vals.append(int(v))
     return vals
 
 
@@ -674,10 +817,10 @@ def apt_make_obj(cls, vals: list):
     """Build a packet the way a driver does: by assigning field values."""
     obj = cls()
     i = 0
-    for (name, count, is_char, off, esz), (_, ftype, *_) in zip(apt_flat_fields(cls), cls._fields_):
+    for (name, count, is_char, off, esz), (_, ftype, *_) in zip(apt_flat_fields(cls), all_fields(cls)):
         if is_char:
             setattr(obj, name, bytes(vals[i:i + count]))
-        elif count > 1:
+        elif hasattr(ftype, "_length_"):
             setattr(obj, name, ftype(*vals[i:i + count]))
         else:
             setattr(obj, name, vals[i])
@@ -718,6 +861,133 @@ def impl_apt_ask(dev, host, name, buf: bytes):
         return f"ok {ints_str(apt_obj_values(obj))}|buf={hx(bytes(tr.buf))}", obj
     except Exception as e:  # noqa
         return _exc(e) + f"|buf={hx(bytes(tr.buf))}", e
+
+
+def impl_apt_askt(dev, host, name, dflt, t, buf: bytes):
+    ap, pk = _apt_mods()
+    tr = BufferTransport(buf)
+
+    def rd():
+        return ",".join(f"{n}:{'N' if tm is None else int(tm)}" for n, tm in tr.reads)
+    try:
+        proto = ap.AptProtocol(tr, apt_device_address=dev, host_address=host, default_timeout=dflt)
+        obj = proto.ask(getattr(pk, name)) if t is None else proto.ask(getattr(pk, name), t)
+        return f"ok {ints_str(apt_obj_values(obj))}|buf={hx(bytes(tr.buf))}|rd={rd()}", obj, tr
+    except Exception as e:  # noqa
+        return _exc(e) + f"|buf={hx(bytes(tr.buf))}|rd={rd()}", e, tr
+
+
+def _k10(tr):
+    import importlib
+    k = importlib.import_module("qmi.instruments.thorlabs.k10cr1")
+    obj = k.Thorlabs_K10CR1.__new__(k.Thorlabs_K10CR1)
+    obj._transport = tr
+    obj._name = "k10"
+    return k, obj
+
+
+def k10_classes() -> dict:
+    import importlib
+    k = importlib.import_module("qmi.instruments.thorlabs.k10cr1")
+    return {c.__name__: c for c in k._apt_message_type_table.values()}
+
+
+def impl_k10_read(buf: bytes):
+    tr = BufferTransport(buf)
+    k, obj = _k10(tr)
+    try:
+        m = obj._read_message(timeout=1.0)
+        return f"ok {type(m).__name__} {ints_str(apt_obj_values(m))}|buf={hx(bytes(tr.buf))}", m
+    except Exception as e:  # noqa
+        return _exc(e) + f"|buf={hx(bytes(tr.buf))}", e
+
+
+class _FakeTime:
+    """`time` seen by k10cr1 during `_wait_message`: the n-th monotonic() call returns t0 + n*step (exact floats)."""
+
+    def __init__(self, t0, step):
+        self.t0, self.step, self.n = t0, step, 0
+
+    def monotonic(self):
+        v = float(self.t0 + self.n * self.step)
+        self.n += 1
+        if self.n > 10000:
+            raise IoBudgetExceeded()
+        return v
+
+    def sleep(self, dt):
+        pass
+
+
+def impl_k10_wait(name: str, t0: int, step: int, timeout: int, buf: bytes):
+    tr = BufferTransport(buf, budget=2000)
+    k, obj = _k10(tr)
+    tmos = []
+    orig = obj._read_message
+
+    def rec(timeout):
+        tmos.append(timeout)
+        return orig(timeout=timeout)
+    obj._read_message = rec
+    real_time = k.time
+    k.time = _FakeTime(t0, step)
+    try:
+        m = obj._wait_message(k10_classes()[name], float(timeout))
+        line, res = f"ok {type(m).__name__} {ints_str(apt_obj_values(m))}", m
+    except Exception as e:  # noqa
+        line, res = _exc(e), e
+    finally:
+        k.time = real_time
+    ts = "." if not tmos else ",".join(str(int(x)) if float(x).is_integer() else repr(x) for x in tmos)
+    return line + f"|buf={hx(bytes(tr.buf))}|tmo={ts}", res
+
+
+def impl_k10_send(msg: bytes, buf: bytes):
+    tr = BufferTransport(buf)
+    k, obj = _k10(tr)
+    try:
+        obj._send_message(msg)
+        return f"ok|w={hx(b''.join(tr.written)) if tr.written else '.'}|buf={hx(bytes(tr.buf))}", tr
+    except Exception as e:  # noqa
+        return _exc(e) + f"|w={hx(b''.join(tr.written)) if tr.written else '.'}|buf={hx(bytes(tr.buf))}", tr
+
+
+K10_HEADER_FIELDS = ("message_id", "data_length", "dest", "source", "_dummy")
+
+
+def impl_k10_create(name: str, kw_vals: list):
+    cls = k10_classes()[name]
+    try:
+        kwargs, i = {}, 0
+        for (fname, count, is_char, off, esz), (_, ftype, *_) in zip(apt_flat_fields(cls), all_fields(cls)):
+            if fname in K10_HEADER_FIELDS:
+                continue
+            vals = kw_vals[i:i + count]
+            i += count
+            kwargs[fname] = bytes(vals) if is_char else ftype(*vals) if hasattr(ftype, "_length_") else vals[0]
+        return hx(bytes(cls.create(**kwargs)))
+    except Exception as e:  # noqa
+        return _exc(e)
+
+
+def impl_t3(batches, period_ps: int, res_ps: int, counter0: int = 0):
+    """One real T3 decoder fed batch after batch: [(counter before, counter after, [(type, ts)] or exception name)]."""
+    import importlib
+    import numpy as np
+    dec_mod = importlib.import_module("qmi.instruments.picoquant.support._decoders")
+    dec = dec_mod._T3EventDecoder(sync_frequency_hz=1E12 / period_ps, resolution_ps=float(res_ps))
+    if dec._sync_period_ps != float(period_ps):       # 1e12 / (1e12 / P) is not always P in float64
+        dec._sync_period_ps = float(period_ps)
+    dec._overflow_counter = counter0
+    out = []
+    for b in batches:
+        c_before = int(dec._overflow_counter)
+        try:
+            ev = [(int(e["type"]), int(e["timestamp"])) for e in dec.process_data(np.array(b, dtype=np.uint32))]
+            out.append((c_before, int(dec._overflow_counter), ev))
+        except Exception as e:  # noqa
+            out.append((c_before, int(dec._overflow_counter), _exc(e)))
+    return out
 
 
 def impl_t2(batches, counter0: int = 0):
@@ -962,9 +1232,13 @@ def case_ib_wire(c: dict):
     fails = []
     strict, lenient = ref_ib_decode(w), ref_ib_decode_lenient(w)
     got = _msg_tuple(o)
+    if got is None and o != "exc:ValueError":
+        fails.append(("unexpected-exception", c.get("cls", "wire"), f"decoding {w.hex()}: {o} (only ValueError is caught by the retry loop)"))
     if c.get("oracle", True):
         if got is not None and strict is None and lenient is None:
             fails.append(("corrupt-accepted", c.get("cls", "wire"), f"frame {w.hex()} breaks the framing/checksum rules but QMI returned {o}"))
+        elif got is not None and strict is None and got != lenient:
+            fails.append(("noncanonical-misread", c.get("cls", "wire"), f"frame {w.hex()} read literally is {lenient}; QMI returned {o}"))
         elif got is not None and strict is not None and got != strict:
             fails.append(("decode-roundtrip", c.get("cls", "wire"), f"frame {w.hex()} carries {strict}; QMI returned {o}"))
         elif got is None and strict is not None and 0 <= strict[2] <= 9:
@@ -1122,25 +1396,209 @@ def case_apt_ask(c: dict):
     return [line], [o], fails
 
 
+def case_ib_seq(c: dict):
+    """Several requests through ONE protocol object over ONE transport (source toggle, stale replies of retried requests)."""
+    mod = _ib_mod()
+    tr = ScriptedLineTransport(_unhex_script(c["script"]), budget=400)
+    proto = mod.NKTPhotonicsInterbusProtocol(tr, timeout=0.01)
+    proto._source_toggle = c["tg"]
+    lines, outs, fails = [], [], []
+    for (dest, t, reg, datahex) in c["ops"]:
+        data = bytes.fromhex(datahex)
+        tg0, reads0, nw0 = proto._source_toggle, tr.reads, len(tr.written)
+        state = ([bytes(tr.buf)] if tr.buf else []) + list(tr.script)
+        lines.append(f"ib.rr {tg0} {dest} {t} {reg} {hx(data)} {script_str(state)}")
+        try:
+            res = proto._request_response(dest, mod.MessageType(t), reg, data)
+            line = _show_msg(res)
+        except Exception as e:  # noqa
+            res, line = e, _exc(e)
+        w = tr.written[nw0:]
+        outs.append(line + f"|tg={proto._source_toggle}|w={'.' if not w else ';'.join(hx(x) for x in w)}|reads={tr.reads - reads0}"
+                    f"|buf={hx(bytes(tr.buf))}|left={len(tr.script)}")
+        # per call: what came back is the first intact telegram addressed to this call's source, or an exception
+        srcs = {g[1] for g in (ref_ib_decode(x) for x in w) if g is not None}
+        if not isinstance(res, BaseException) and len(srcs) == 1:
+            src = srcs.pop()
+            reads = ScriptedLineTransport(state).all_reads()
+            first = next((g for g in (ref_ib_decode(fr) for fr in reads if fr is not None)
+                          if g is not None and 0 <= g[2] <= 9 and g[1] == dest and g[0] == src), None)
+            if _msg_tuple(line) != first:
+                fails.append(("wrong-reply-returned", "sequence", f"call {len(lines)} of {c['ops']} on one protocol object: first intact "
+                              f"telegram for (dest={dest}, src={src}) is {first}; QMI returned {line}"))
+        if proto._source_toggle == tg0 and not isinstance(res, ValueError):
+            fails.append(("source-not-alternated", "sequence", f"two consecutive requests used the same source address (toggle {tg0})"))
+    return lines, outs, fails
+
+
+def case_apt_seq(c: dict):
+    """Several `ask` calls through ONE AptProtocol over ONE receive stream."""
+    ap, pk = _apt_mods()
+    tr = BufferTransport(bytes.fromhex(c["buf"]), budget=200)
+    proto = ap.AptProtocol(tr, apt_device_address=c["dev"], host_address=c["host"], default_timeout=0.01)
+    lines, outs, fails = [], [], []
+    for name, want_hex in c["asks"]:
+        lines.append(f"apt.ask {c['dev']} {c['host']} {name} {hx(bytes(tr.buf))}")
+        try:
+            obj = proto.ask(getattr(pk, name))
+            outs.append(f"ok {ints_str(apt_obj_values(obj))}|buf={hx(bytes(tr.buf))}")
+            if want_hex is not None and bytes(obj).hex() != want_hex:
+                fails.append(("ask-roundtrip", f"{name}:sequence", f"message #{len(lines)} of one stream: device sent {want_hex}; ask returned {bytes(obj).hex()}"))
+        except Exception as e:  # noqa
+            outs.append(_exc(e) + f"|buf={hx(bytes(tr.buf))}")
+            if want_hex is not None:
+                fails.append(("ask-roundtrip", f"{name}:sequence", f"message #{len(lines)} of one stream ({want_hex}): ask raised {_exc(e)}"))
+    return lines, outs, fails
+
+
+def case_apt_askt(c: dict):
+    dev, host, name, buf, dflt, t = c["dev"], c["host"], c["packet"], bytes.fromhex(c["buf"]), c["dflt"], c["t"]
+    sh = lambda x: "N" if x is None else str(x)   # noqa
+    line = f"apt.askt {dev} {host} {name} {sh(dflt)} {sh(t)} {hx(buf)}"
+    o, res, tr = impl_apt_askt(dev, host, name, dflt, t, buf)
+    fails = []
+    want = t if t is not None else dflt
+    if any(tm != want for _, tm in tr.reads):
+        fails.append(("ask-timeout-not-passed", name, f"ask(timeout={t}) with default {dflt} read with {tr.reads}"))
+    return [line], [o], fails
+
+
+def _k10_ids(buf: bytes) -> list:
+    """(reference view) split a stream of well-formed messages: [(id, wire bytes)], stops at the first malformed one."""
+    out, i = [], 0
+    while i + 6 <= len(buf):
+        mid, = struct.unpack_from("<H", buf, i)
+        if buf[i + 4] & 0x80:
+            ln, = struct.unpack_from("<H", buf, i + 2)
+            fmt = K10_DOC.get(mid)
+            if mid in K10_DOC and fmt is None and ln == 0:      # long flag, no data: the six bytes of a header-only message
+                out.append((mid, buf[i:i + 6]))
+                i += 6
+                continue
+            if fmt is None or struct.calcsize(fmt) != ln or i + 6 + ln > len(buf):
+                break
+            out.append((mid, buf[i:i + 6 + ln]))
+            i += 6 + ln
+        else:
+            if mid not in K10_DOC or K10_DOC[mid] is not None:
+                break
+            out.append((mid, buf[i:i + 6]))
+            i += 6
+    return out
+
+
+def _k10_check_obj(obj, wire: bytes, mid: int, what: str) -> Optional[tuple]:
+    cls = type(obj).__name__
+    if int(type(obj).MESSAGE_ID) != mid:
+        return ("k10-wrong-class", cls, f"{what}: device sent id {mid:#06x} ({wire.hex()}); driver got {cls} (id {int(type(obj).MESSAGE_ID):#06x})")
+    if bytes(obj) != wire:
+        return ("k10-payload-altered", cls, f"{what}: device sent {wire.hex()}; driver got {bytes(obj).hex()}")
+    fmt = K10_DOC[mid]
+    if fmt is not None:
+        vals = struct.unpack(fmt, wire[6:])
+        names = [f for f in apt_flat_fields(type(obj)) if f[0] not in ("message_id", "data_length", "dest", "source")]
+        if len(names) == len(vals):
+            for (fname, count, is_char, off, esz), v in zip(names, vals):
+                got = getattr(obj, fname)
+                okv = (bytes(got) == v.split(b"\0")[0]) if is_char else (bytes(memoryview(got)) == v) if hasattr(got, "__len__") else (int(got) == v)
+                if not okv:
+                    return ("k10-field", f"{cls}.{fname}", f"{what}: device sent {fname}={v!r}; driver reads {got!r}")
+    return None
+
+
+def case_k10_read(c: dict):
+    buf = bytes.fromhex(c["buf"])
+    line = f"k10.read {hx(buf)}"
+    o, res = impl_k10_read(buf)
+    fails = []
+    returned = not isinstance(res, BaseException)
+    msgs = _k10_ids(buf)
+    exp = c.get("expect")
+    if exp == "roundtrip":
+        if not returned:
+            fails.append(("k10-read-roundtrip", c.get("cls", "?"), f"device sent the well-formed message {msgs[0][1].hex()}; _read_message raised {o.split('|')[0]}"))
+        else:
+            f = _k10_check_obj(res, msgs[0][1], msgs[0][0], "_read_message")
+            if f:
+                fails.append(f)
+    elif exp == "reject" and returned:
+        fails.append(("k10-malformed-accepted", c.get("cls", "?"), f"stream {buf.hex()} does not start with a well-formed message ({c.get('why')}); "
+                      f"_read_message returned {type(res).__name__} {bytes(res).hex()}"))
+    if isinstance(res, BaseException) and type(res).__name__ not in ("QMI_InstrumentException", "QMI_TimeoutException"):
+        fails.append(("unexpected-exception", "k10_read", f"{line}: {res!r}"))
+    return [line], [o], fails
+
+
+def case_k10_wait(c: dict):
+    buf = bytes.fromhex(c["buf"])
+    name, t0, step, tmo = c["want"], c["t0"], c["step"], c["timeout"]
+    line = f"k10.wait {name} {t0} {step} {tmo} {hx(buf)}"
+    o, res = impl_k10_wait(name, t0, step, tmo, buf)
+    fails = []
+    returned = not isinstance(res, BaseException)
+    want_id = int(k10_classes()[name].MESSAGE_ID)
+    msgs = _k10_ids(buf)
+    first = next(((i, m) for i, m in enumerate(msgs) if m[0] == want_id), None)
+    if returned:
+        if first is None:
+            fails.append(("k10-wait-wrong-message", name, f"no well-formed {name} (id {want_id:#06x}) in the stream {buf.hex()}; "
+                          f"_wait_message returned {type(res).__name__} {bytes(res).hex()}"))
+        else:
+            f = _k10_check_obj(res, first[1][1], want_id, "_wait_message")
+            if f:
+                fails.append(f)
+    elif first is not None and first[0] == 0:
+        fails.append(("k10-wait-rejects-expected", name, f"the first message {first[1][1].hex()} is the awaited {name}; _wait_message raised {o.split('|')[0]}"))
+    if isinstance(res, BaseException) and type(res).__name__ not in ("QMI_InstrumentException", "QMI_TimeoutException"):
+        fails.append(("unexpected-exception", "k10_wait", f"{line}: {res!r}"))
+    return [line], [o], fails
+
+
+def case_k10_send(c: dict):
+    msg, buf = bytes.fromhex(c["msg"]), bytes.fromhex(c["buf"])
+    line = f"k10.send {hx(msg)} {hx(buf)}"
+    o, tr = impl_k10_send(msg, buf)
+    fails = []
+    if tr.written and b"".join(tr.written) != msg:
+        fails.append(("k10-send-altered", "send", f"_send_message({msg.hex()}) wrote {b''.join(tr.written).hex()}"))
+    if o.startswith("ok") and not tr.written:
+        fails.append(("k10-send-lost", "send", f"_send_message({msg.hex()}) returned without writing"))
+    return [line], [o], fails
+
+
+def case_k10_create(c: dict):
+    name, kw = c["cls"], c["kw"]
+    line = f"k10.create {name} {ints_str(kw)}"
+    o = impl_k10_create(name, kw)
+    fails = []
+    mid = int(k10_classes()[name].MESSAGE_ID)
+    if c.get("in_range", True) and mid in K10_DOC:
+        got = None if o.startswith("exc") else ref_apt_parse(bytes.fromhex(o))
+        fmt = K10_DOC[mid]
+        if fmt is None:
+            want = {"id": mid, "p1": (kw + [0, 0])[0], "p2": (kw + [0, 0])[1], "dest": 0x50, "source": 0x01, "data": None}
+        else:
+            want = {"id": mid, "dest": 0x50, "source": 0x01, "data": doc_pack(fmt, c["doc_vals"])}
+        if got != want:
+            fails.append(("k10-create", name, f"{name}.create({kw}) = {o}; a conforming device reads {got}, expected {want}"))
+    return [line], [o], fails
+
+
 def case_t2(c: dict):
     batches, c0 = c["batches"], c.get("counter0", 0)
     lines, outs = ["t2.reset"], ["ok"]
     blines, events, cfin = impl_t2(batches, c0)
     if c0:
-        # bring the model's counter to c0 with overflow records (each adds at most 2^25 - 1)
-        pre, left = [], c0
-        while left > 0:
-            k = min(left, T2_WRAP - 1)
-            pre.append(t2_rec("overflow", 0x3F, k))
-            left -= k
-        lines.append("t2.proc " + ",".join(map(str, pre)))
-        outs.append(f"c={c0} ev=.")
+        lines.append(f"t2.set {c0}")
+        outs.append("ok")
     for b, bl in zip(batches, blines):
         lines.append("t2.proc " + (",".join(map(str, b)) if b else "."))
         outs.append(bl)
     fails = []
-    if c.get("oracle", True):
-        stream = [r for b in batches for r in b]
+    stream = [r for b in batches for r in b]
+    # the reference is unbounded; numpy's uint64 arithmetic wraps once the counter reaches 2^39 (out of the statement)
+    in_range = c0 + sum(r & (T2_WRAP - 1) for r in stream if (r >> 25) == 0x7F) < (1 << 39)
+    if c.get("oracle", True) and in_range:
         ref, ofl = ref_t2_decode(stream, c0 * T2_WRAP)
         want = [(t2_expected_type(k, ch), tt) for k, ch, tt in ref]
         split = "split" if len(batches) > 1 else "single"
@@ -1159,8 +1617,40 @@ def case_t2(c: dict):
     return lines, outs, fails
 
 
+def case_t3(c: dict):
+    batches, P, R, c0 = c["batches"], c["P"], c["R"], c.get("counter0", 0)
+    runs = impl_t3(batches, P, R, c0)
+    lines, outs, fails = [], [], []
+    for b, (cb, ca, ev) in zip(batches, runs):
+        lines.append(f"t3.proc {P} {R} {cb} " + (",".join(map(str, b)) if b else "."))
+        outs.append(ev if isinstance(ev, str) else f"c={ca} ev=" + ("." if not ev else ",".join(f"{t}:{ts}" for t, ts in ev)))
+    if c.get("oracle", True):
+        ofl = c0 * T3_WRAP
+        data_all, want_all = [], []
+        for bi, (b, (cb, ca, ev)) in enumerate(zip(batches, runs)):
+            if isinstance(ev, str):
+                fails.append(("t3-decode-raises", "t3", f"T3 batch {b}: {ev}"))
+                break
+            ref, ofl2 = ref_t3_decode(b, P, R, ofl)
+            want = sorted([(t2_expected_type(k, ch), tt) for k, ch, tt, _ in ref] + [(64, s * P) for s in sorted({x[3] for x in ref})])
+            if sorted(ev) != want:
+                fails.append(("t3-events", "single" if len(batches) == 1 else "split",
+                              f"T3 batch #{bi} {b} (P={P}, R={R}, carried counter {cb}): got {ev}, expected (as a set) {want}"))
+                break
+            if any(a[1] > b2[1] for a, b2 in zip(ev, ev[1:])):
+                fails.append(("t3-not-time-ordered", "t3", f"T3 batch {b}: {ev}"))
+                break
+            if ca * T3_WRAP != ofl2:
+                fails.append(("t3-carried-counter", "t3", f"T3 batch #{bi} {b}: carried counter {ca}, expected {ofl2 // T3_WRAP}"))
+                break
+            ofl = ofl2
+    return lines, outs, fails
+
+
 CASE_FUNCS = {"ib_codec": case_ib_codec, "ib_wire": case_ib_wire, "ib_rr": case_ib_rr,
-              "apt_wp": case_apt_wp, "apt_wd": case_apt_wd, "apt_ask": case_apt_ask, "t2": case_t2}
+              "apt_wp": case_apt_wp, "apt_wd": case_apt_wd, "apt_ask": case_apt_ask, "apt_askt": case_apt_askt,
+              "k10_read": case_k10_read, "k10_wait": case_k10_wait, "k10_send": case_k10_send, "k10_create": case_k10_create,
+              "t2": case_t2, "t3": case_t3, "ib_seq": case_ib_seq, "apt_seq": case_apt_seq}
 
 
 def run_case(c: dict):
@@ -1168,7 +1658,7 @@ def run_case(c: dict):
 
 
 def _family(kind: str) -> str:
-    return "interbus" if kind.startswith("ib_") else "apt" if kind.startswith("apt_") else "t2"
+    return "interbus" if kind.startswith("ib_") else "apt" if kind.startswith(("apt_", "k10_")) else "t2"   # t2, t3
 
 
 def _fail_of(c: dict, f: tuple) -> Failure:
@@ -1266,7 +1756,7 @@ def gen_ib_wire(rng) -> dict:
     tele = bytearray(bytes([d, s, t, reg]) + data)
     tele += binascii.crc_hqx(bytes(tele), 0).to_bytes(2, "big")
     how = rng.choice(["wire-flip", "wire-flip", "crc-byte", "crc-byte", "field-no-crc", "delete", "insert", "truncate",
-                      "type-unknown", "garbage", "short", "intact"])
+                      "type-unknown", "garbage", "short", "intact", "noncanonical", "noncanonical"])
 
     def esc(tl):
         out = bytearray([0x0D])
@@ -1304,6 +1794,22 @@ def gen_ib_wire(rng) -> dict:
             w = b"\r" + w + b"\n"
     elif how == "short":
         w = b"\r" + bytes(rng.randrange(256) for _ in range(rng.randint(0, 7))) + b"\n"
+    elif how == "noncanonical":
+        # a correctly check-summed telegram spelled as no conforming device spells it: reserved bytes left raw
+        # (never a raw LF, which would end the frame), escape bytes followed by arbitrary bytes
+        data = bytes(rng.choice([0x0D, 0x5E, 0x5E, 0x41, 0x4A, 0x4D, 0x9E, 0x00, rng.randrange(256)]) for _ in range(rng.randint(1, 12)))
+        tele = bytearray(bytes([d, s, t, reg]) + data)
+        if rng.random() < 0.15:     # sometimes with a wrong checksum on top
+            tele += ((binascii.crc_hqx(bytes(tele), 0) + rng.randint(1, 65535)) & 0xFFFF).to_bytes(2, "big")
+        else:
+            tele += binascii.crc_hqx(bytes(tele), 0).to_bytes(2, "big")
+        out = bytearray([0x0D])
+        for b in tele:
+            if b == 0x0A or (b in IB_SPECIAL and rng.random() < 0.4):
+                out += bytes([0x5E, b + 0x40])
+            else:
+                out.append(b)
+        w = bytes(out) + b"\n"
     return {"kind": "ib_wire", "wire": w.hex(), "cls": how}
 
 
@@ -1384,6 +1890,112 @@ def retry_boundary_cases() -> list:
     for cut in range(1, len(good)):
         cases.append({"kind": "ib_rr", "op": "get", "tg": 0, "dest": 7, "t": 4, "reg": 0x20, "data": "", "none": False,
                       "script": [good[:cut].hex(), good[cut:].hex()], "cls": "good"})
+    return cases
+
+
+def gen_ib_seq(rng) -> dict:
+    tg = rng.choice([0, 1])
+    ops, script = [], []
+    t_now = tg
+    for i in range(rng.randint(2, 4)):
+        t_now = (t_now + 1) & 1
+        src = 161 + t_now
+        dest = rng.choice([1, 10, 13, 94, 160])
+        t, reg = rng.randint(0, 9), rng.choice(IB_HOT)
+        ops.append((dest, t, reg, gen_payload(rng, 12).hex()))
+        good = ref_ib_encode(src, dest, rng.randint(0, 9), reg, gen_payload(rng, 16))
+        how = rng.random()
+        if how < 0.35:                 # plain answer
+            script += split_bytes(rng, good)
+        elif how < 0.70:               # one time-out, the request is re-sent, the device answers BOTH: a stale reply stays behind
+            script += [None] + split_bytes(rng, good) + [ref_ib_encode(src, dest, 3, reg, b"stale")]
+        elif how < 0.85:               # a reply to the previous source address first
+            script += [ref_ib_encode(161 + (t_now ^ 1), dest, 8, reg, b"old")] + split_bytes(rng, good)
+        else:                          # damaged, then good
+            script += [good[:-3] + bytes([good[-3] ^ 1]) + good[-2:]] + split_bytes(rng, good)
+    return {"kind": "ib_seq", "tg": tg, "ops": ops, "script": [None if x is None else x.hex() for x in script]}
+
+
+def gen_apt_seq(rng, packets: dict) -> dict:
+    import ctypes
+    dev, host = _addr(rng)
+    buf, asks = b"", []
+    for _ in range(rng.randint(2, 5)):
+        name = rng.choice(sorted(n for n in packets if n in APT_DOC))
+        cls = packets[name]
+        doc = APT_DOC[name]
+        dv = gen_doc_values(rng, doc[1])
+        if cls.HEADER_ONLY:
+            dv[0] = int(cls.MESSAGE_ID)
+            raw = doc_pack(doc[1], dv)
+            buf += raw
+            asks.append((name, raw.hex()))
+        else:
+            data = doc_pack(doc[1], dv)
+            if struct.calcsize(doc[1]) != ctypes.sizeof(cls):
+                continue
+            buf += ref_apt_header_data(int(cls.MESSAGE_ID), len(data), host & 0x7F, 0x50) + data
+            asks.append((name, data.hex()))
+    if rng.random() < 0.3 and asks:    # ask once more than there are messages
+        asks.append((asks[-1][0], None))
+    return {"kind": "apt_seq", "dev": dev, "host": host, "buf": buf.hex(), "asks": asks}
+
+
+def fixed_corpus() -> list:
+    """Boundary cases that run first on every seed (no randomness)."""
+    cases = []
+    # Interbus: every address boundary, register boundary, every message type, both toggles
+    for d in (0, 1, 2, 159, 160, 161, 255, 256):
+        for reg in (0, 255, 256):
+            cases.append({"kind": "ib_codec", "d": d, "s": 161, "t": 4, "r": reg, "data": "5e0a0d"})
+    for sa in (0, 160, 161, 162, 254, 255, 256):
+        cases.append({"kind": "ib_codec", "d": 1, "s": sa, "t": 4, "r": 0x10, "data": ""})
+    for t in range(10):
+        cases.append({"kind": "ib_codec", "d": 13, "s": 162, "t": t, "r": 0x0A, "data": "0a"})
+    good = ref_ib_encode(162, 7, 8, 0x20, b"\x5e\x0a")
+    for t in (0, 1, 2, 3, 8, 9):             # NACK, CRC_ERROR, BUSY, ACK, DATAGRAM, other as the reply to get / set
+        for reg in (0x20, 0x21):
+            rep = ref_ib_encode(162, 7, t, reg, b"\x01")
+            for op in ("get", "set"):
+                cases.append({"kind": "ib_rr", "op": op, "tg": 0, "dest": 7, "t": 4, "reg": 0x20, "data": "", "none": op == "set",
+                              "script": [rep.hex()], "cls": f"reply-type-{t}"})
+    # the same reply twice, a reply glued to the next one, an empty segment, a lone terminator
+    for sc in ([good.hex(), good.hex()], [(good + good).hex()], ["", good.hex()], ["0a", good.hex()], [good[:-1].hex(), None, "0a"]):
+        cases.append({"kind": "ib_rr", "op": "rr", "tg": 0, "dest": 7, "t": 4, "reg": 0x20, "data": "", "none": False,
+                      "script": sc, "cls": "fixed"})
+    # contents shorter / just as long as the minimum, each with a *valid* checksum (the decoder's second length test)
+    for n in range(0, 7):
+        # reserved bytes, so that the escaped frame passes the first length test even when the content is too short
+        tele = bytes([0x0A, 0xA2, 0x08, 0x0D, 0x5E, 0x0A, 0x0D][:n])
+        tele += binascii.crc_hqx(tele, 0).to_bytes(2, "big")
+        inner = b"".join(bytes([0x5E, b + 0x40]) if b in IB_SPECIAL else bytes([b]) for b in tele)
+        cases.append({"kind": "ib_wire", "wire": (b"\r" + inner + b"\n").hex(), "cls": f"content-{n}-bytes"})
+        cases.append({"kind": "ib_rr", "op": "rr", "tg": 1, "dest": 7, "t": 4, "reg": 0x20, "data": "", "none": False,
+                      "script": [(b"\r" + inner + b"\n").hex()], "cls": f"content-{n}-bytes"})
+    # a stale reply of a retried request must not be taken for the answer to the next request
+    cases.append({"kind": "ib_seq", "tg": 0, "ops": [(7, 4, 0x20, ""), (7, 4, 0x21, "")],
+                  "script": [None, ref_ib_encode(162, 7, 8, 0x20, b"A").hex(), ref_ib_encode(162, 7, 8, 0x20, b"B").hex(),
+                             ref_ib_encode(161, 7, 8, 0x21, b"C").hex()]})
+    # APT: length-field boundaries for every data packet, id boundaries
+    import ctypes
+    for name, cls in sorted(live_packets().items()):
+        if cls.HEADER_ONLY or name not in APT_DOC:
+            continue
+        size, mid = ctypes.sizeof(cls), int(cls.MESSAGE_ID)
+        data = bytes(range(1, size + 1))
+        for ln in (0, 1, size - 1, size, size + 1, 65535):
+            cases.append({"kind": "apt_ask", "dev": 0x50, "host": 1, "packet": name, "expect": "data-or-raise", "data": data.hex(),
+                          "buf": (ref_apt_header_data(mid, ln, 1, 0x50) + data + bytes(8)).hex()})
+        for bad in (0, mid - 1, mid + 1, mid ^ 0x8000, 0xFFFF):
+            cases.append({"kind": "apt_ask", "dev": 0x50, "host": 1, "packet": name, "expect": "reject", "sent_id": bad, "want_id": mid,
+                          "buf": (ref_apt_header_data(bad, size, 1, 0x50) + data).hex()})
+    # T2: record types next to the overflow code, tag boundaries, the same batch twice, an empty batch between two batches
+    ov1, ovmax = t2_rec("overflow", 0x3F, 1), t2_rec("overflow", 0x3F, T2_WRAP - 1)
+    ph = [t2_rec("photon", 63, 0), t2_rec("photon", 63, T2_WRAP - 1), t2_rec("photon", 62, 1), t2_rec("marker", 15, 7), t2_rec("sync", 0, 0)]
+    for b in ([ph[0], ov1, ph[1]], [ovmax, ovmax, ph[1]], ph):
+        cases.append({"kind": "t2", "batches": [b, b], "counter0": 0})
+        cases.append({"kind": "t2", "batches": [b, [], b, []], "counter0": 1})
+    cases.append({"kind": "t2", "batches": [[T2_SPECIAL | (62 << 25) | 5, T2_SPECIAL | (16 << 25) | 5, ov1, 0x7E << 25 | 1]], "counter0": 0, "oracle": False})
     return cases
 
 
@@ -1486,6 +2098,143 @@ def gen_apt_ask(rng, packets: dict) -> dict:
     return c
 
 
+def gen_apt_askt(rng, packets: dict) -> dict:
+    c = gen_apt_ask(rng, packets)
+    return {"kind": "apt_askt", "dev": c["dev"], "host": c["host"], "packet": c["packet"], "buf": c["buf"],
+            "dflt": rng.choice([None, 0, 1, 5, 30]), "t": rng.choice([None, None, 0, 2, 7, 3600])}
+
+
+def _k10_bad_message(rng) -> tuple:
+    """(wire, why): one message that breaks the format rules."""
+    how = rng.choice(["unknown-id", "length-field", "short-with-long-flag", "long-without-flag", "partial", "short-stream"])
+    long_ids = [m for m, f in K10_DOC.items() if f is not None]
+    short_ids = [m for m, f in K10_DOC.items() if f is None]
+    if how == "unknown-id":
+        mid = rng.choice([0x0000, 0x0213, 0x0491, 0x0530, 0xFFFF, rng.randrange(65536)])
+        while mid in K10_DOC:
+            mid += 1
+        if rng.random() < 0.5:
+            return struct.pack("<HBBBB", mid, 1, 0, 0x01, 0x50), how
+        return ref_apt_header_data(mid, 6, 0x01, 0x50) + bytes(6), how
+    if how == "length-field":
+        mid = rng.choice(long_ids)
+        w, _ = ref_k10_message(rng, mid)
+        n = len(w) - 6
+        ln = rng.choice([n - 1, n + 1, n + 6, 0, 1, rng.randrange(0, n + 10)])
+        if ln == n:
+            ln += 1
+        data = w[6:] + bytes(rng.randrange(256) for _ in range(12))
+        return ref_apt_header_data(mid, ln, 0x01, 0x50) + data, how
+    if how == "short-with-long-flag":
+        mid = rng.choice(short_ids)
+        ln = rng.choice([0, 1, 2])
+        # length 0 with the long flag is six bytes in all: the code reads it as the header-only message (no rule of the
+        # statement is at stake: same id, same bytes) — model diff only
+        return ref_apt_header_data(mid, ln, 0x01, 0x50) + bytes(2), how if ln else "long-flag-zero-length"
+    if how == "long-without-flag":
+        mid = rng.choice(long_ids)
+        w, _ = ref_k10_message(rng, mid)
+        return w[:4] + bytes([w[4] & 0x7F]) + w[5:], how
+    if how == "partial":
+        mid = rng.choice(long_ids)
+        w, _ = ref_k10_message(rng, mid)
+        return w[:rng.randrange(6, len(w))], how
+    return bytes(rng.randrange(256) for _ in range(rng.randrange(6))), how
+
+
+def gen_k10_read(rng) -> dict:
+    if rng.random() < 0.55:
+        mid = rng.choice(sorted(K10_DOC))
+        w, _ = ref_k10_message(rng, mid, dest=rng.choice([0x01, 0x01, 0x00, 0x7F]), source=rng.choice([0x50, 0x50, 0x21, 0xFF]))
+        tail = bytes(rng.randrange(256) for _ in range(rng.choice([0, 0, 1, 6, 20])))
+        return {"kind": "k10_read", "buf": (w + tail).hex(), "expect": "roundtrip", "cls": f"{mid:#06x}"}
+    w, why = _k10_bad_message(rng)
+    return {"kind": "k10_read", "buf": w.hex(), "expect": None if why in ("partial", "short-stream", "long-flag-zero-length") else "reject",
+            "why": why, "cls": why}
+
+
+def gen_k10_wait(rng) -> dict:
+    names = sorted(k10_classes())
+    want = rng.choice(names)
+    want_id = int(k10_classes()[want].MESSAGE_ID)
+    parts = []
+    for _ in range(rng.choice([0, 0, 1, 1, 2, 3, 6])):
+        parts.append(ref_k10_message(rng, rng.choice(sorted(K10_DOC)))[0])
+    r = rng.random()
+    if r < 0.6 and want_id in K10_DOC:
+        parts.append(ref_k10_message(rng, want_id)[0])
+    elif r < 0.75:
+        parts.append(_k10_bad_message(rng)[0])
+    if rng.random() < 0.3:
+        parts.append(ref_k10_message(rng, rng.choice(sorted(K10_DOC)))[0])
+    t0 = rng.choice([0, 1000, 123456])
+    step, timeout = rng.choice([(0, 5), (1, 10), (1, 3), (2, 4), (5, 4), (3, 0), (1, 1), (1, 2), (0, 0)])
+    return {"kind": "k10_wait", "want": want, "t0": t0, "step": step, "timeout": timeout, "buf": b"".join(parts).hex()}
+
+
+def gen_k10_send(rng) -> dict:
+    msg = ref_k10_message(rng, rng.choice(sorted(K10_DOC)), dest=0x50, source=0x01)[0]
+    r = rng.random()
+    if r < 0.4:
+        buf = b""
+    elif r < 0.75:
+        buf = b"".join(ref_k10_message(rng, rng.choice(sorted(K10_DOC)))[0] for _ in range(rng.randint(1, 3)))
+    else:
+        buf = _k10_bad_message(rng)[0] + bytes(rng.randrange(256) for _ in range(rng.choice([0, 7])))
+    return {"kind": "k10_send", "msg": msg.hex(), "buf": buf.hex()}
+
+
+def gen_k10_create(rng) -> dict:
+    import ctypes
+    classes = k10_classes()
+    name = rng.choice(sorted(classes))
+    cls = classes[name]
+    mid = int(cls.MESSAGE_ID)
+    fmt = K10_DOC.get(mid)
+    c = {"kind": "k10_create", "cls": name}
+    nonhdr = [f for f in apt_flat_fields(cls) if f[0] not in K10_HEADER_FIELDS]
+    if mid in K10_DOC and rng.random() < 0.9:
+        if fmt is None:
+            kw = [rng.choice([0, 1, 2, 255, rng.randrange(256)]) for _ in nonhdr]
+            c.update(kw=kw, in_range=True)
+        else:
+            dv = gen_doc_values(rng, fmt, nul_free_chars=True)
+            raw = ref_apt_header_data(mid, struct.calcsize(fmt), 0x50, 0x01) + doc_pack(fmt, dv)
+            if len(raw) != ctypes.sizeof(cls):
+                c.update(kw=[0] * sum(f[1] for f in nonhdr), in_range=False)
+            else:
+                vals = apt_obj_values(cls.from_buffer_copy(raw))
+                skip = sum(f[1] for f in apt_flat_fields(cls) if f[0] in K10_HEADER_FIELDS)
+                c.update(kw=vals[skip:], doc_vals=dv, in_range=True)
+    else:
+        kw = []
+        for fname, count, is_char, off, esz in nonhdr:
+            for _ in range(count):
+                kw.append(rng.randint(1, 255) if is_char else rng.choice([0, -1, 2 ** (8 * esz), 2 ** (8 * esz) + 3, rng.randrange(2 ** (8 * esz))]))
+        c.update(kw=kw, in_range=False)
+    return c
+
+
+def gen_t3_case(rng) -> dict:
+    n = rng.choice([0, 1, 2, 3, 5, 8, 20, 60])
+    recs = []
+    for _ in range(n):
+        k = rng.random()
+        nsync = rng.choice([0, 1, 5, 5, 5, 1023, rng.randrange(1024)])
+        dtime = rng.choice([0, 1, 32767, rng.randrange(32768)])
+        if k < 0.55:
+            recs.append((rng.choice([0, 1, 7, 63, rng.randrange(64)]) << 25) | (dtime << 10) | nsync)
+        elif k < 0.65:
+            recs.append(T2_SPECIAL | (rng.randint(1, 15) << 25) | nsync)
+        else:
+            recs.append(T2_SPECIAL | (0x3F << 25) | rng.choice([1, 1, 2, 1023, rng.randint(1, 1023)]))
+    k = rng.randint(0, 3)
+    cuts = sorted(rng.choice(range(len(recs) + 1)) for _ in range(k))
+    batches = [recs[i:j] for i, j in zip([0] + cuts, cuts + [len(recs)])]
+    P, R = rng.choice([(200000, 1), (100000, 4), (12500, 25), (1000000, 80), (25000, 1)])
+    return {"kind": "t3", "batches": batches, "P": P, "R": R, "counter0": rng.choice([0, 0, 3, 1000, 40000])}
+
+
 def gen_t2_cases(rng, n_exh: int, max_exh_len: int, n_long: int) -> list:
     cases = []
     for _ in range(n_exh):
@@ -1499,6 +2248,11 @@ def gen_t2_cases(rng, n_exh: int, max_exh_len: int, n_long: int) -> list:
         cuts = sorted(rng.choice(range(len(stream) + 1)) for _ in range(k))     # repeated cut = empty batch
         batches = [stream[i:j] for i, j in zip([0] + cuts, cuts + [len(stream)])]
         cases.append({"kind": "t2", "batches": batches, "counter0": rng.choice([0, 0, 7, 1 << 20])})
+    for _ in range(max(6, n_long // 4)):     # carried counter at the uint64 bound (2^39 overflows) and at 2^64: numpy wraps
+        stream = gen_t2_stream(rng, rng.randint(1, 10))
+        c0 = rng.choice([(1 << 39) - 1, (1 << 39) - 2, (1 << 39), (1 << 39) - (1 << 25), (1 << 64) - 1, (1 << 64) - 3, (1 << 63)])
+        k = rng.randint(0, len(stream))
+        cases.append({"kind": "t2", "batches": [stream[:k], stream[k:]], "counter0": c0})
     for _ in range(max(4, n_long // 4)):     # records outside the documented format: model diff only
         stream = [rng.choice([rng.randrange(1 << 32), t2_rec("overflow", 0x3F, 0), T2_SPECIAL | (rng.randint(16, 62) << 25) | 5,
                               (1 << 32) - 1, 0]) for _ in range(rng.randint(1, 12))]
@@ -1518,10 +2272,13 @@ class C15B(Prop):
     modelled_not_verified = [
         "Python `bytes.replace` for 1- and 2-byte patterns (model: replace1/replace2, left to right, non-overlapping; differentially checked)",
         "ctypes packed LittleEndianStructure = concatenated little-endian cells, out-of-range ints stored modulo 2^bits "
-        "(layout regenerated from the live classes, contiguity closed by `decide`; behaviour differentially checked)",
-        "numpy vectorised shift/mask/cumsum/boolean-index of _T2EventDecoder as a sequential fold (differentially checked on real numpy arrays); uint64 wrap-around out of scope",
-        "the transports below the codecs (read_until / read semantics) are the harness's scripted fakes; the real transports are C13's subject",
-        "get_register/set_register are modelled and differentially checked, no separate theorem",
+        "(layouts of apt_packets and of the k10cr1 message table regenerated from the live classes, contiguity closed by `decide`; behaviour differentially checked)",
+        "numpy vectorised shift/mask/cumsum/boolean-index of _T2EventDecoder as a sequential fold with uint64 wrap-around "
+        "(differentially checked on real numpy arrays, also at carried counters 2^39 and 2^64)",
+        "_T3EventDecoder (outside the statement, modelled for the shared carried counter): float64 arithmetic modelled as exact integer "
+        "arithmetic — valid for integer sync period / resolution and timestamps < 2^53; np.unique / np.lexsort as insertion sorts",
+        "the transports below the codecs (read_until / read / discard_read semantics) are the harness's scripted fakes; the real transports are C13's subject",
+        "time.monotonic in Thorlabs_K10CR1._wait_message is a linear virtual clock (n-th call = t0 + n*step); the 50 ms payload timeout is not modelled",
     ]
     extra_trusted = [
         "harness/props/c15b.py: translator (AST patterns + live ctypes/enum introspection) and the independent reference device "
@@ -1531,7 +2288,7 @@ class C15B(Prop):
     # -- translator -----------------------------------------------------------------------------------
     def translate(self, ctx: Ctx) -> list:
         g = translate_all()
-        core.write_if_changed(GEN_FILE, render_gen(g["ib"], g["t2"], g["apt"]))
+        core.write_if_changed(GEN_FILE, render_gen(g["ib"], g["t2"], g["apt"], g["k10"], g["t3"]))
         return [GEN_FILE]
 
     # -- correspondence + oracle ----------------------------------------------------------------------
@@ -1614,17 +2371,30 @@ class C15B(Prop):
             res.count("apt.ask." + c["packet"])
             res.count("apt.ask.result." + outs[0].split("|")[0].split(" ")[0])
             res.count("apt.ask.expect." + str(c.get("expect")))
+        elif k.startswith("k10_"):
+            res.count("apt." + k)
+            res.count("apt." + k + ".result." + outs[0].split("|")[0].split(" ")[0])
+            if k == "k10_read":
+                res.count("apt.k10_read." + str(c.get("cls")))
+        elif k in ("ib_seq", "apt_seq"):
+            res.count("sequence_on_one_object." + k)
+        elif k == "t3":
+            res.count("t2.t3_batches", len(c["batches"]))
         elif k == "t2":
             res.count("t2.batches." + str(min(len(c["batches"]), 9)))
             res.count("t2.records", sum(len(b) for b in c["batches"]))
             res.count("t2.overflow_records", sum(1 for b in c["batches"] for r in b if (r >> 25) == 0x7F))
             if c.get("counter0"):
                 res.count("t2.nonzero_carried_counter_at_start")
+                if c["counter0"] >= (1 << 39) - (1 << 25):
+                    res.count("t2.carried_counter_at_uint64_bound")
 
     def _cases(self, ctx: Ctx) -> list:
         rng = ctx.rng
         packets = live_packets()
-        cases: list = []
+        cases: list = fixed_corpus()
+        cases += [gen_ib_seq(rng) for _ in range(ctx.scale(1000, 15000))]
+        cases += [gen_apt_seq(rng, packets) for _ in range(ctx.scale(1000, 15000))]
         # boundary lengths, every reserved byte at every position of a short payload
         for n in (0, 1, 2, 239, 240, 241):
             for fill in (0x00, 0x0A, 0x0D, 0x5E, 0x4A):
@@ -1633,13 +2403,19 @@ class C15B(Prop):
             for b in IB_SPECIAL + (0x4A, 0x4D, 0x9E, 0x41):
                 cases.append({"kind": "ib_codec", "d": 13, "s": 162, "t": 8, "r": 0x5E, "data": bytes([a, b]).hex()})
         cases += retry_boundary_cases()
-        cases += [gen_ib_codec(rng) for _ in range(ctx.scale(12000, 150000))]
-        cases += [gen_ib_wire(rng) for _ in range(ctx.scale(20000, 300000))]
-        cases += [gen_ib_rr(rng) for _ in range(ctx.scale(12000, 150000))]
-        cases += [gen_apt_wp(rng) for _ in range(ctx.scale(4000, 40000))]
-        cases += [gen_apt_wd(rng, packets) for _ in range(ctx.scale(8000, 100000))]
-        cases += [gen_apt_ask(rng, packets) for _ in range(ctx.scale(16000, 200000))]
-        cases += gen_t2_cases(rng, ctx.scale(250, 1500), ctx.scale(6, 9), ctx.scale(600, 8000))
+        cases += [gen_ib_codec(rng) for _ in range(ctx.scale(8000, 150000))]
+        cases += [gen_ib_wire(rng) for _ in range(ctx.scale(12000, 300000))]
+        cases += [gen_ib_rr(rng) for _ in range(ctx.scale(8000, 150000))]
+        cases += [gen_apt_wp(rng) for _ in range(ctx.scale(2500, 40000))]
+        cases += [gen_apt_wd(rng, packets) for _ in range(ctx.scale(5000, 100000))]
+        cases += [gen_apt_ask(rng, packets) for _ in range(ctx.scale(10000, 200000))]
+        cases += [gen_apt_askt(rng, packets) for _ in range(ctx.scale(1000, 20000))]
+        cases += [gen_k10_read(rng) for _ in range(ctx.scale(4000, 80000))]
+        cases += [gen_k10_wait(rng) for _ in range(ctx.scale(3500, 60000))]
+        cases += [gen_k10_send(rng) for _ in range(ctx.scale(1500, 20000))]
+        cases += [gen_k10_create(rng) for _ in range(ctx.scale(2000, 30000))]
+        cases += gen_t2_cases(rng, ctx.scale(160, 1500), ctx.scale(6, 9), ctx.scale(400, 8000))
+        cases += [gen_t3_case(rng) for _ in range(ctx.scale(1800, 30000))]
         return cases
 
     def correspondence(self, ctx: Ctx) -> Result:
@@ -1649,7 +2425,10 @@ class C15B(Prop):
             "frames (one wire byte, CRC byte, address, deletion, insertion, truncation), request/response scripts of good / "
             "mis-addressed / damaged / missing replies split into transfers; APT: every packet class with boundary field values, "
             "wrong ids, wrong lengths, truncated streams; T2: conforming record streams with every split into batches (short) and "
-            "random splits incl. empty batches (long); non-trivial = non-empty payload/script/stream; distinct by the op lines"))
+            "random splits incl. empty batches (long), carried counters at the uint64 bound; K10CR1 layer: every table class well-formed, unknown id, "
+            "wrong length field, long flag on/off, partial messages, wait behind other messages with a stepping clock, create, send with "
+            "pending data; several requests / asks through ONE protocol object over one transport; a fixed boundary corpus runs first on "
+            "every seed; non-trivial = non-empty payload/script/stream; distinct by the op lines"))
         cases = self._cases(ctx)
         ctx.log(f"{len(cases)} cases generated")
         self._run(ctx, cases, res)
@@ -1658,7 +2437,7 @@ class C15B(Prop):
             l, o, _ = run_case(c)
             res.sample({"ops": [x[:200] for x in l], "impl": [x[:200] for x in o]}, limit=8)
         try:
-            res.extra["generated_constants"] = {k: v for k, v in translate_all().items() if k != "apt"}
+            res.extra["generated_constants"] = {k: v for k, v in translate_all().items() if k not in ("apt", "k10")}
         except Exception as e:  # noqa  (the translator stage reports this itself)
             res.extra["generated_constants"] = f"translator failed: {e}"
         return res
@@ -1699,6 +2478,7 @@ class C15B(Prop):
             for tup in itertools.product(recs, repeat=n):
                 for sp in all_splits(list(tup)):
                     cases.append({"kind": "t2", "batches": sp, "counter0": 0})
+        cases += fixed_corpus()
         cases += [gen_ib_codec(ctx.rng) for _ in range(4000)] + [gen_ib_wire(ctx.rng) for _ in range(6000)] + \
                  [gen_ib_rr(ctx.rng) for _ in range(4000)]
         self._run(ctx, cases, res, diff=False)
